@@ -21,7 +21,11 @@ pub fn get() -> FunctionDefinitions {
                         return None;
                     }
                 }
-                Some(sum.into())
+                if sum.is_finite() {
+                    Some(sum.into())
+                } else {
+                    None
+                }
             }
         }
         Rc::new(Impl(args))
